@@ -48,7 +48,8 @@ OUTSIDE = [
     "tracked shared state only: module globals (incl. writes through a module __dict__), celpy class attributes, and "
     "attributes / items of any object two workloads both touch, where the receiver is a plain name(.attr)* chain: "
     "subscript load/store/delete, `in`, and method calls on a dict / list / set (setdefault, update, pop, append, add, get, "
-    "...; key = the constant or name(.attr)* first argument, else the whole container is one location); a mutable object "
+    "...; key = the constant or name(.attr)* first argument / subscript, any hashable value, two keys being one location exactly "
+    "when the dict treats them as one key - e.g. equal code objects or tuples; else the whole container is one location); a mutable object "
     "that a finished solo run leaves stored at most two hops from a module global / class attribute (e.g. a dict cached in "
     "a class-level table) is named by that location, so the objects each thread puts there count as one - deeper object "
     "graphs, objects only passed through such a location and later removed, and mutation through other APIs "
